@@ -15,14 +15,15 @@ var kvProps = map[string]bool{"ALL": true, "C01": true, "C05": true, "C06": true
 // schedPlans: scenario-name prefixes per property.
 var schedPlans = map[string][]string{
 	"C02": {"R-", "L-"},
-	"C03": {"S1-", "S2-", "S3-", "S4-", "S5-", "S6-", "S7-", "S8-", "S9-", "S10-", "S11-", "L-wux", "L-update", "L-incr", "L-writesubdoc", "L-subdocinsert"},
+	"C03": {"S1-", "S2-", "S3-", "S4-", "S5-", "S6-", "S7-", "S8-", "S9-", "S10-", "S11-", "S12-", "L-wux", "L-update", "L-incr", "L-writesubdoc", "L-subdocinsert"},
 	"C08": {"F-"},
 	"C09": {"B-"},
 	"C15": {"K-"},
 	"C18": {"S6-", "L-subdoc", "L-writesubdoc"},
 	"C12": {"W-"},
+	"C07": {"S12-wux"},
 	"C14": {"E-"},
-	"C20": {"X-"},
+	"C20": {"X-", "O-open2-pending"},
 	"C13": {"O-"},
 	"C04": {"H-"},
 	"C17": {"V-"},
@@ -56,6 +57,7 @@ var genPlans = map[string][]genPlan{
 	"C19": {{kind: "queries", quickDepth: 3, thoroughDepth: 4}, {kind: "queries", cfg: Config{Disk: true}, quickDepth: 3, thoroughDepth: 4}},
 	"C14": {{kind: "expiry", quickDepth: 4, thoroughDepth: 5}, {kind: "expiry", cfg: Config{Disk: true}, quickDepth: 3, thoroughDepth: 4}},
 	"C16": {{kind: "feeds", cfg: Config{Disk: true}, quickDepth: 4, thoroughDepth: 5}, {kind: "feeds", quickDepth: 4, thoroughDepth: 5}},
+	"C15": {{kind: "checkpoint", quickDepth: 4, thoroughDepth: 6}, {kind: "checkpoint", cfg: Config{Disk: true}, quickDepth: 4, thoroughDepth: 5}},
 }
 
 const (
@@ -70,7 +72,7 @@ func RunCheck(prop, tier string, procs int, budget time.Duration) int {
 	defer pool.Close()
 	quick := tier != "thorough"
 	if budget == 0 {
-		budget = 5 * time.Minute
+		budget = 10 * time.Minute
 		if !quick {
 			budget = 45 * time.Minute
 		}
